@@ -62,7 +62,10 @@ def main():
             if status.startswith("PATCH-FAILED") and meta.get("superseded_by"):
                 status = "SUPERSEDED"
                 detail = "no longer applies to the current tree; regenerated as " + meta["superseded_by"]
-            if meta.get("expect") == "not-flagged" and chk == p:
+            harmless = (meta.get("expect") == "not-flagged" or "equivalent_mutant" in meta
+                        or str(meta.get("what", "")).lower().startswith("harmless") or str(meta.get("caught")) == "False" and "equivalent" in json.dumps(meta).lower())
+            if harmless and chk == p:
+                meta.setdefault("expect_why", str(meta.get("equivalent_mutant") or meta.get("what") or "")[:200])
                 status = "NOT-FLAGGED(expected)" if status == "MISSED" else "FLAGGED(unexpected)"
                 detail += "; " + meta.get("expect_why", "")
             rows.append((name, p if chk == p else f"{p} (also run: {chk})", status, detail))
